@@ -68,7 +68,7 @@ Lemma revoked_only_completes_revocation_lemma live cfg d now keys sigs fl ksk2 t
 Proof.
   intros Hp Ha. unfold autota. rewrite Hp, Ha.
   pose proof (process_PV tag now true keys sigs ksk2 tombs2) as (Hk & Ht & _).
-  set (s3 := process now true (fetched_map tag keys) _ _ _) in *.
+  set (s3 := process tag now true (fetched_map tag keys) _ _ _) in *.
   assert (Horig : forall t a', In (t, a') (p_ksk s3) ->
             In (t, a') ksk2 \/ exists a k', In (t, a) ksk2 /\ is_trusted_st a = true /\ revokes tag keys sigs a k' /\ a' = mk_ta (ta_key a) SRevoked now).
   { intros t a' Hin. destruct (Hk t a' Hin) as [H|a k' H1 H2 H3 H4|k H]; [left; exact H|right; exists a, k'; auto|discriminate]. }
@@ -89,28 +89,28 @@ Lemma full_run_origin live cfg d now keys sigs fl ksk2 tombs2 :
   (* every key in the live set was trusted before the fetch, or completed the add hold-down in this run *)
   (forall k, In k (r_live r) ->
      In k (trusted_keys ksk2) \/
-     exists t a, In (t, a) ksk2 /\ ta_st a = SAddPend /\ ta_key a = k /\ lookup t fm <> None /\ (now - ta_fs a > hold_add)%Z) /\
+     exists t a, In (t, a) ksk2 /\ ta_st a = SAddPend /\ ta_key a = k /\ fm_has fm t a = true /\ (now - ta_fs a > hold_add)%Z) /\
   (* every entry written to the state file *)
   (forall s5 t a', In (WState s5) (r_writes r) -> In (t, a') s5 ->
      (* trusted: as above *)
      (is_trusted_st a' = true ->
         (exists a, In (t, a) ksk2 /\ is_trusted_st a = true /\ ta_key a = ta_key a') \/
-        exists a, In (t, a) ksk2 /\ ta_st a = SAddPend /\ ta_key a = ta_key a' /\ lookup t fm <> None /\ (now - ta_fs a > hold_add)%Z) /\
+        exists a, In (t, a) ksk2 /\ ta_st a = SAddPend /\ ta_key a = ta_key a' /\ fm_has fm t a = true /\ (now - ta_fs a > hold_add)%Z) /\
      (* pending: an old pending entry whose TAG is in the response, or a key of the response first seen now *)
      (ta_st a' = SAddPend ->
-        (In (t, a') ksk2 /\ lookup t fm <> None) \/
+        (In (t, a') ksk2 /\ fm_has fm t a' = true) \/
         (lookup t fm = Some (ta_key a') /\ ta_fs a' = now))).
 Proof.
   intros Hp Ha. unfold autota. rewrite Hp, Ha.
   pose proof (process_PV tag now false keys sigs ksk2 tombs2) as (Hk & _ & _).
   set (fm := fetched_map tag keys) in *.
-  set (s3 := process now false fm _ _ _) in *.
+  set (s3 := process tag now false fm _ _ _) in *.
   set (s4 := mk_pst (keyrem now fm (p_ksk s3)) (p_tombs s3) (p_newrev s3) (p_revs s3)).
   assert (Hent : forall t b, In (t, b) (p_ksk s4) ->
      (is_trusted_st b = true ->
         (exists a, In (t, a) ksk2 /\ is_trusted_st a = true /\ ta_key a = ta_key b) \/
-        exists a, In (t, a) ksk2 /\ ta_st a = SAddPend /\ ta_key a = ta_key b /\ lookup t fm <> None /\ (now - ta_fs a > hold_add)%Z) /\
-     (ta_st b = SAddPend -> (In (t, b) ksk2 /\ lookup t fm <> None) \/ (lookup t fm = Some (ta_key b) /\ ta_fs b = now))).
+        exists a, In (t, a) ksk2 /\ ta_st a = SAddPend /\ ta_key a = ta_key b /\ fm_has fm t a = true /\ (now - ta_fs a > hold_add)%Z) /\
+     (ta_st b = SAddPend -> (In (t, b) ksk2 /\ fm_has fm t b = true) \/ (lookup t fm = Some (ta_key b) /\ ta_fs b = now))).
   { intros t b Hin. cbn in Hin. apply (keyrem_in tag) in Hin. destruct Hin as (a & Hin & Hc).
     pose proof hold_add_pos as Hpos.
     destruct (Hk t a Hin) as [Ho|a0 k' Ho Htr Hrv ->|k _ Hf Hr Hm ->].
@@ -148,13 +148,12 @@ Proof.
 Qed.
 
 Definition after_refresh (now : Z) (fm : list (N * key)) (t : N) (a : ta) : ta :=
-  match lookup t fm with
-  | Some _ => mk_ta (ta_key a) SValid (ta_fs a)     (* published (by tag): Valid — back to Valid if it was Missing *)
-  | None => match ta_st a with
-            | SValid => mk_ta (ta_key a) SMissing now   (* disappeared: Missing, remove hold-down starts now *)
-            | _ => a
-            end
-  end.
+  if fm_has fm t a
+  then mk_ta (ta_key a) SValid (ta_fs a)     (* published (this tag, this material): Valid — back to Valid if it was Missing *)
+  else match ta_st a with
+       | SValid => mk_ta (ta_key a) SMissing now   (* disappeared: Missing, remove hold-down starts now *)
+       | _ => a
+       end.
 
 Lemma missing_90d_lemma live cfg d now keys sigs fl ksk2 tombs2 t a :
   prefetch tag live cfg d now fl = Some (ksk2, tombs2) ->
@@ -166,28 +165,28 @@ Lemma missing_90d_lemma live cfg d now keys sigs fl ksk2 tombs2 t a :
   (* at least one of the two writes works *)
   (f_twrite fl = false \/ f_swrite fl = false) ->
   (* if it is missing, then for at most 90 days *)
-  (lookup t fm = None -> ta_st a = SMissing -> (now - ta_fs a <= hold_rem)%Z) ->
+  (fm_has fm t a = false -> ta_st a = SMissing -> (now - ta_fs a <= hold_rem)%Z) ->
   let r := autota tag live cfg d now (FResp keys sigs) fl in
   In (ta_key a) (r_live r) /\
   forall s5, In (WState s5) (r_writes r) -> lookup t s5 = Some (after_refresh now fm t a).
 Proof.
   intros Hp Ha fm Hl Htr Hno Hw Hage. unfold autota. rewrite Hp, Ha. fold fm.
   set (staged := stage tag ksk2 tombs2 sigs fm (sort_tags (map fst fm))).
-  set (s3 := process now false fm staged (sort_tags (map fst fm)) (mk_pst ksk2 tombs2 false [])).
+  set (s3 := process tag now false fm staged (sort_tags (map fst fm)) (mk_pst ksk2 tombs2 false [])).
   assert (H3 : lookup t (p_ksk s3) = Some a).
   { unfold s3, staged, fm. apply process_untouched; [exact Hl|exact Hno]. }
   assert (Hone : keyrem_one now fm (t, a) = [(t, after_refresh now fm t a)]).
   { unfold keyrem_one, after_refresh. cbn [fst snd]. destruct a as [k st0 fs]. cbn [ta_st ta_key ta_fs] in *.
-    destruct (lookup t fm) eqn:Ef; destruct st0; cbn in Htr; try discriminate; cbn [ta_st ta_key ta_fs].
+    destruct (fm_has fm t _) eqn:Ef; destruct st0; cbn in Htr; try discriminate; cbn [ta_st ta_key ta_fs].
     - reflexivity.
     - reflexivity.
     - rewrite Z.sub_diag. reflexivity.
     - specialize (Hage eq_refl eq_refl). destruct (Z.gtb_spec (now - fs) hold_rem); [lia|reflexivity]. }
   assert (H4 : lookup t (keyrem now fm (p_ksk s3)) = Some (after_refresh now fm t a)) by (eapply keyrem_lookup; eassumption).
   assert (Htr' : is_trusted_st (after_refresh now fm t a) = true).
-  { unfold after_refresh. destruct (lookup t fm); [reflexivity|]. destruct a as [k st0 fs]; cbn in *. destruct st0; try discriminate; reflexivity. }
+  { unfold after_refresh. destruct (fm_has fm t a); [reflexivity|]. destruct a as [k st0 fs]; cbn in *. destruct st0; try discriminate; reflexivity. }
   assert (Hkey : ta_key (after_refresh now fm t a) = ta_key a).
-  { unfold after_refresh. destruct (lookup t fm); [reflexivity|]. destruct (ta_st a); reflexivity. }
+  { unfold after_refresh. destruct (fm_has fm t a); [reflexivity|]. destruct (ta_st a); reflexivity. }
   assert (Hnm : is_marker (after_refresh now fm t a) = false).
   { destruct (is_marker (after_refresh now fm t a)) eqn:E; [|reflexivity]. rewrite (marker_not_trusted _ E) in Htr'. discriminate. }
   unfold tail. cbn [r_live r_writes p_ksk].
